@@ -16,8 +16,10 @@ type hw struct {
 	hwapi.LowLevelHardwareInterfaces
 	segs    []seg             // readable physical memory
 	msr     map[int64]uint64  // MSR values
-	pci     map[string][]byte // "dev:off:len" -> bytes
-	meWord  map[int]uint32    // ME config space: offset -> word
+	pci     map[string][]byte // "dev:off:len" -> bytes (direct reads of the host bridge, no enumeration)
+	devs    []pciDev          // the visible PCI devices, in the order the enumeration hands them over
+	enumErr bool              // the enumeration reports an error behind the last device
+	pciLog  []string          // every config-space read that was made: "bb:dd.f@off"
 	tpmVer  hwapi.TPMVersion
 	nvPub   map[uint32][]byte
 	nvVal   map[uint32][]byte
@@ -31,7 +33,7 @@ type seg struct {
 }
 
 func newHW() *hw {
-	return &hw{msr: map[int64]uint64{}, pci: map[string][]byte{}, meWord: map[int]uint32{}, nvPub: map[uint32][]byte{}, nvVal: map[uint32][]byte{}}
+	return &hw{msr: map[int64]uint64{}, pci: map[string][]byte{}, nvPub: map[uint32][]byte{}, nvVal: map[uint32][]byte{}}
 }
 
 func (h *hw) mapMem(base uint64, data []byte) { h.segs = append(h.segs, seg{base, data}) }
@@ -75,15 +77,24 @@ func (h *hw) ReadMSR(msr int64) []uint64 {
 	return []uint64{v}
 }
 
+// pciDev: one visible PCI device with its 256-byte config space (nil: the config space
+// cannot be read). The mock knows nothing about which device numbers the code looks for.
+type pciDev struct {
+	Bus, Dev, Fn int
+	Cfg          []byte
+}
+
+func (d pciDev) bdf() string { return fmt.Sprintf("%02x:%02x.%x", d.Bus, d.Dev, d.Fn) }
+
 func (h *hw) PCIReadConfigSpace(d hwapi.PCIDevice, off int, n int) ([]byte, error) {
-	if d.Device == 16 || d.Device == 22 {
-		w, ok := h.meWord[off]
-		if !ok {
-			return nil, fmt.Errorf("mock: ME config offset %#x not set", off)
+	for _, p := range h.devs {
+		if p.Bus == d.Bus && p.Dev == d.Device && p.Fn == d.Function {
+			h.pciLog = append(h.pciLog, fmt.Sprintf("%s@%#x", p.bdf(), off))
+			if p.Cfg == nil || off < 0 || n < 0 || off+n > len(p.Cfg) {
+				return nil, fmt.Errorf("mock: config space of %s not readable at %#x+%d", p.bdf(), off, n)
+			}
+			return append([]byte{}, p.Cfg[off:off+n]...), nil
 		}
-		b := make([]byte, 4)
-		binary.LittleEndian.PutUint32(b, w)
-		return b[:n], nil
 	}
 	b, ok := h.pci[fmt.Sprintf("%d:%d:%d", d.Device, off, n)]
 	if !ok {
@@ -92,11 +103,16 @@ func (h *hw) PCIReadConfigSpace(d hwapi.PCIDevice, off int, n int) ([]byte, erro
 	return append([]byte{}, b...), nil
 }
 
+// the walk hands the devices over in the order of h.devs and stops when the callback asks for it
+// (hwapi: filepath.Walk over /sys/bus/pci/devices, SkipDir on abort)
 func (h *hw) PCIEnumerateVisibleDevices(cb func(d hwapi.PCIDevice) (abort bool)) error {
-	for _, dev := range []int{0, 2, 16, 31} {
-		if cb(hwapi.PCIDevice{Bus: 0, Device: dev, Function: 0}) {
+	for _, p := range h.devs {
+		if cb(hwapi.PCIDevice{Bus: p.Bus, Device: p.Dev, Function: p.Fn}) {
 			return nil
 		}
+	}
+	if h.enumErr {
+		return fmt.Errorf("mock: PCI enumeration failed")
 	}
 	return nil
 }
